@@ -205,7 +205,11 @@ def work(job):
         rng = random.Random(seed * 1000003 + i)
         todo.append((f"gen:{seed}:{i}", gen_case(prop, rng, tier, i)))
     for name, case in todo:
-        fails, st, samples, keys = run_case(prop, case)
+        try:
+            fails, st, samples, keys = run_case(prop, case)
+        except Exception as e:          # keep what crosses the process boundary picklable
+            import traceback
+            raise RuntimeError(f"harness error on case {name}: {type(e).__name__}: {e}\n{traceback.format_exc()[-1500:]}") from None
         res["cases"] += 1
         res["stats"].update(st)
         res["keys"] |= keys
